@@ -157,9 +157,9 @@ grind_pattern openOuter_step => openOuter c w, Plan pos k w
 grind_pattern openNext_step => openNext c i w, Plan pos k w
 
 theorem cpOpen_step (c : Obj) (w : World) (h : Plan pos k w) : StepT pos k w (cpOpen c w) := by
-  have h1 := openOuter_step c w h
+  have h1 := openOuter_step { c with cur := none } w h
   simp only [cpOpen]
-  generalize openOuter c w = x at *
+  generalize openOuter { c with cur := none } w = x at *
   obtain ⟨res, c1, w1⟩ := x
   simp only [StepT, Step] at h1
   cases res with
